@@ -1063,3 +1063,33 @@ def rule_R4h(ctx, rep, config="c-lib"):
                               "`error' terminal has code -2) the subtraction overflows -- a well-formed grammar fails with YAEP_NO_MEMORY or the code table is "
                               "allocated with a garbage size", where=i.where(), witness=[i.where()])
     rep.floor("R4h", "int differences of two terminal codes", n, 1)
+
+
+def rule_R4i(ctx, rep, config="c-lib"):
+    rep.rule("R4i", "a shift is done in a type at least as wide as its amount can get: `1 << (n % 64)' computed in int is undefined for amounts of 32 and more (in practice "
+                    "the bit lands in the lower half or is lost: terminals with numbers 32..63 mod 64 vanish from the lookahead / FIRST / FOLLOW sets).  Decided for "
+                    "every shift whose amount is reduced by a constant modulus or mask; other amounts are not judged here")
+    p = ctx.prog(config)
+    n = 0
+    bits = {"i8": 8, "i16": 16, "i32": 32, "i64": 64}
+    for f in p.m.defined():
+        for i in f.all_insts():
+            if i.op not in ("shl", "lshr", "ashr") or i.ty not in bits:
+                continue
+            a = f.inst(strip_int_casts(f, i.ops[1]))
+            bound = None
+            if a is not None and a.op in ("urem", "srem") and const_int(a.ops[1]) is not None and const_int(a.ops[1]) > 0:
+                bound = const_int(a.ops[1]) - 1
+            elif a is not None and a.op == "and" and any(const_int(o) is not None and const_int(o) >= 0 for o in a.ops):
+                bound = min(const_int(o) for o in a.ops if const_int(o) is not None and const_int(o) >= 0)
+            if bound is None:
+                continue
+            n += 1
+            rep.cover(p, [f.name])
+            key = "%s/shift#%s" % (f.name, i.where().rsplit(":", 2)[-2] if i.where() else n)
+            if bound >= bits[i.ty]:
+                rep.violation("R4i", key, "%s shifts a %d-bit value by an amount that reaches %d: undefined behaviour, and the bits meant for the upper part of the word "
+                              "are lost or land elsewhere" % (f.name, bits[i.ty], bound), where=i.where(), witness=[i.where()])
+            else:
+                rep.ok("R4i", key, sample={"shift": i.where(), "width": bits[i.ty], "amount <=": bound})
+    rep.floor("R4i", "shifts by a reduced amount", n, 2)
